@@ -192,6 +192,10 @@ class World:
             return ERROR_LINES[f.get("v", 0) % len(ERROR_LINES)]
         if f["kind"] == "garbage":
             return GARBAGE_LINES[f.get("v", 0) % len(GARBAGE_LINES)]
+        if f["kind"] == "foreign-value":   # a well-formed item - for a key nobody asked for (confused proxy / server)
+            if data.startswith(b"VALUE ") or data == b"END\r\n":       # only a retrieval reply has this shape
+                return b"VALUE zz-not-requested 0 5\r\nalien\r\nEND\r\n"
+            return data
         if f["kind"] == "truncate":   # reply cut after n bytes, then the node closes
             n = f.get("n", 0) % (len(data) + 1) if f.get("mod", True) else f.get("n", 0)
             conn.peer_closed = True
@@ -312,6 +316,7 @@ class SimSocket:
         self.closed_seq = None
         self.shut = False
         self.last_io = None          # simulated time of the last send / receive on this socket
+        self.closed_at = None
         world.ctx().socks.append(self.id)
         no = len(world.open_sockets())
         if no > world.max_open:
@@ -537,6 +542,7 @@ class SimSocket:
         want = ctx.seg[ctx.piece % len(ctx.seg)]
         if ctx.lat and ctx.piece == 0:
             w.clock.advance(ctx.lat)      # the server takes simulated time to answer
+            self.last_io = w.clock.now
         ctx.piece += 1
         limit = n if not want else min(n, want)
         if limit <= 0:
@@ -576,6 +582,7 @@ class SimSocket:
         if not self.closed:
             self.closed = True
             self.closed_seq = w.seq
+            self.closed_at = w.clock.now
         if f is not None and f["kind"] == "closefail":
             raise OSError(errno.EIO, "sim: close failed")
         if f is not None and f["kind"] == "interrupt":
